@@ -75,6 +75,9 @@ pub trait Ops: Send + Sync {
     fn load(&self, src: &mut TapR, ver: u32, mode: Mode) -> Outcome<MV>;
     /// load from `src` and serialize the loaded value again (bare); the value itself is never interpreted by the harness
     fn reload(&self, src: &mut TapR, ver: u32) -> Outcome<Vec<u8>>;
+    /// the convenience entry points (files on disk, in-memory buffers): names of those that do NOT bring the value back equal
+    /// and, for the schema-less file, the bytes on disk
+    fn helpers(&self, v: &MV, ver: u32, dir: &std::path::Path) -> Outcome<(Vec<String>, Vec<u8>)>;
     fn packed(&self, ver: u32) -> bool;
     fn schema(&self, ver: u32) -> Outcome<serde_json::Value>;
     fn schema_obj(&self, ver: u32) -> Schema;
@@ -134,6 +137,32 @@ where
         guarded(|| {
             let val: T = load_t(src, ver, mode)?;
             Ok(val.to_model())
+        })
+    }
+    fn helpers(&self, v: &MV, ver: u32, dir: &std::path::Path) -> Outcome<(Vec<String>, Vec<u8>)> {
+        let val = T::from_model(v);
+        guarded(|| {
+            let mut bad = vec![];
+            let want = val.to_model();
+            let p = dir.join("helper.bin");
+            savefile::save_file(&p, ver, &val)?;
+            if savefile::load_file::<T, _>(&p, ver)?.to_model() != want {
+                bad.push("save_file/load_file".to_string());
+            }
+            savefile::save_file_compressed(&p, ver, &val)?;
+            if savefile::load_file::<T, _>(&p, ver)?.to_model() != want {
+                bad.push("save_file_compressed/load_file".to_string());
+            }
+            let mem = savefile::save_to_mem(ver, &val)?;
+            if savefile::load_from_mem::<T>(&mem, ver)?.to_model() != want {
+                bad.push("save_to_mem/load_from_mem".to_string());
+            }
+            savefile::save_file_noschema(&p, ver, &val)?;
+            let on_disk = std::fs::read(&p).map_err(|e| SavefileError::GeneralError { msg: format!("reading the file back: {}", e) })?;
+            if savefile::load_file_noschema::<T, _>(&p, ver)?.to_model() != want {
+                bad.push("save_file_noschema/load_file_noschema".to_string());
+            }
+            Ok((bad, on_disk))
         })
     }
     fn reload(&self, src: &mut TapR, ver: u32) -> Outcome<Vec<u8>> {
